@@ -763,3 +763,15 @@ From BCL Require Gen.GenTables Spec.Pinned Proofs.TieSync.""",
          [("%s_sync_skeleton", "TieSync", "tie_sync_skeleton", "")])
 APPEND["C11"] = (_SYNC[0], [("C11_sync_skeleton", "TieSync", "tie_sync_skeleton", "")])
 APPEND["C12"] = (_SYNC[0], [("C12_sync_skeleton", "TieSync", "tie_sync_skeleton", "")])
+
+# ---- LexSound.v: the lexical grammar is exact; tokens and layout tile the source ----
+_LS = "From BCL Require Import Proofs.LayoutProofs Proofs.LayoutTree Proofs.LexLayout Proofs.LexWrite Proofs.LexSound."
+_extend("C17", [], _LS,
+        [("C17_lexical_grammar_sound", "LexSound", "lex_tokens_lexable", "every token the lexer emits has the shape the lexical grammar gives its type (identifiers, decimal and hex integers, floats with fraction or exponent, quoted strings, keywords, punctuation)"),
+         ("C17_lexical_grammar_exact", "LexSound", "lexable'_exact", "and every such text is emitted as that token for some input"),
+         ("C17_lexical_grammar_complete", "LexWrite", "lex_render_any_sep", "a sequence of lexable texts separated by white space is read back as exactly those tokens")], prepend=True)
+_extend("C20", [], _LS,
+        [("C20_lex_tiles", "LexSound", "lex_tiles", "the token texts interleaved with layout (white space and comments) ARE the source: the lexer drops and invents nothing"),
+         ("C20_token_substring", "LexSound", "lex_token_substring", "")])
+APPEND["C08"] = (APPEND["C08"][0] + "\nFrom BCL Require Import Proofs.LexSound.",
+                 APPEND["C08"][1] + [("C08_token_text_at_position", "LexSound", "lex_token_at", "the text of a token (the one a diagnostic quotes) is the source text ending exactly at the token's position")])
